@@ -827,6 +827,10 @@ func (e *Exec) autoTermination(li *loopInfo, h *ssa.BasicBlock) (*ssa.Phi, int, 
 		}
 		return nil
 	}
+	// both sides are counters of the loop (for i, j := 0, n-1; i < j; i, j = i+1, j-1): handled by the caller
+	if px, py := isPhi(bo.X), isPhi(bo.Y); px != nil && py != nil {
+		return nil, 0, false
+	}
 	switch bo.Op {
 	case token.LSS, token.LEQ:
 		if p := isPhi(bo.X); p != nil && invariant(bo.Y, 0) {
@@ -860,6 +864,49 @@ func isRangeLoop(li *loopInfo) bool {
 	return false
 }
 
+// twoCounterStep: loop condition `x < y` (or <=, >, >=) between two integer phis of the header: the obligation
+// that their distance shrinks on this back edge.
+func (e *Exec) twoCounterStep(li *loopInfo, h, pred *ssa.BasicBlock, st *State) (Term, bool) {
+	if len(h.Instrs) == 0 {
+		return Term{}, false
+	}
+	ifi, ok := h.Instrs[len(h.Instrs)-1].(*ssa.If)
+	if !ok || !(li.body[h.Succs[0]] && !li.body[h.Succs[1]]) {
+		return Term{}, false
+	}
+	bo, ok := ifi.Cond.(*ssa.BinOp)
+	if !ok {
+		return Term{}, false
+	}
+	px, okx := bo.X.(*ssa.Phi)
+	py, oky := bo.Y.(*ssa.Phi)
+	if !okx || !oky || px.Block() != h || py.Block() != h {
+		return Term{}, false
+	}
+	idx := -1
+	for i, p := range h.Preds {
+		if p == pred {
+			idx = i
+		}
+	}
+	ox, ok1 := st.env[px]
+	oy, ok2 := st.env[py]
+	if idx < 0 || !ok1 || !ok2 || len(ox.L) != 1 || len(oy.L) != 1 {
+		return Term{}, false
+	}
+	nx, ny := e.val(st, px.Edges[idx]), e.val(st, py.Edges[idx])
+	if len(nx.L) != 1 || len(ny.L) != 1 {
+		return Term{}, false
+	}
+	switch bo.Op {
+	case token.LSS, token.LEQ:
+		return Lt(app(SInt, "-", ny.L[0], nx.L[0]), app(SInt, "-", oy.L[0], ox.L[0])), true
+	case token.GTR, token.GEQ:
+		return Lt(app(SInt, "-", nx.L[0], ny.L[0]), app(SInt, "-", ox.L[0], oy.L[0])), true
+	}
+	return Term{}, false
+}
+
 // terminationStep: on a back edge into h, the obligation that the counter found by autoTermination moves
 // towards its bound (called before the phis are re-bound: st.env still holds the values of the iteration
 // that just ended).
@@ -874,6 +921,11 @@ func (e *Exec) terminationStep(fr *frame, li *loopInfo, h, pred *ssa.BasicBlock,
 	}
 	if isRangeLoop(li) {
 		return // a range loop visits each element once
+	}
+	if g, ok := e.twoCounterStep(li, h, pred, st); ok {
+		e.oblige(st, fmt.Sprintf("%s/loop%d/terminates", fnName(fr.fn), li.ordinal), e.propsFor(fr, "safety"), g,
+			"the distance between the two counters of the loop condition shrinks on every iteration (inferred termination argument)")
+		return
 	}
 	phi, dir, ok := e.autoTermination(li, h)
 	if !ok {
